@@ -21,8 +21,8 @@ CLAIMED = {
  "C20": ("every surgery writer call takes the --output path and is dominated by a successful CopyFile(source, output), the source path is only read, CopyFile refuses an existing destination, raw page writers confined to surgery, rewritten metas re-checksummed and both metas cleared, revert copies the other meta (tabulated) and retargets the page id before writing", "4 C20"),
  "C04": ("in every exported mutator all effect sites are unreachable on a closed or read-only transaction and no error return follows an effect, the pre-effect validation of each mutator has not shrunk (frozen table), bucket-cache coherence (a cached child is freed or re-homed, never dropped), remap dereferences the writer before unmapping, key-order predicates tabulated over bytes.Compare, bucket header / sequence ownership; a user rollback undoes the page frees of DeleteBucket (freelist.Rollback before close on the abort path); keys handed to node.put never alias a caller-supplied slice", "4 C04"),
  "C05": ("after every raw descent no return precedes an emptiness test of the leaf (first/next/prev/Last/Seek), next/prev agree on re-positioning and on the exhausted position, every loop driven by a cursor advance has an exit depending on the key returned, lower-bound search predicates and branch step-back tabulated; every return of a value taken from a raw cursor step (First/Last/Next/Prev/Seek, Bucket.Get) is guarded by a bucket-bit test of that same step's flags (nested buckets reported with a nil value)", "4 C05"),
- "C07": ("free-before-drop for node page ids, bucket roots and node-cache removals, no mutation of a bucket from inside its own ForEach/ForEachBucket callback (every call site in the module), freelist pointer redefined and old freelist page freed before the new one is allocated, Bucket.free frees pages and nodes and DeleteBucket orders nested-delete < free < key removal, physical rollback gives pages back, aborts undo frees, inline conversion frees the old pages; page capacity: page counts requested for nodes and the free list cover ceil(size/pageSize) of the very object written, buffers are count*pageSize, node.size/sizeLessThan/serialiser agree on the terms, Commit grows the file to the high-water mark and grow truncates to at least the request (tabulated); a root leaf holding a nested-bucket element is never inlineable (inlineable() tabulated)", "4 C07, 8.2"),
- "C16": ("fail-fast inside the batch's Update closure with the failing index recorded, queued functions only ever run inside safelyCall's recover barrier, only the failing caller gets trySolo / is removed / never sees the sentinel, buffered result channel and batch.run referenced only through its sync.Once", "4 C16"),
+ "C07": ("free-before-drop for node page ids, bucket roots and node-cache removals, no mutation of a bucket from inside its own ForEach/ForEachBucket callback (every call site in the module), freelist pointer redefined and old freelist page freed before the new one is allocated, Bucket.free frees pages and nodes and DeleteBucket orders nested-delete < free < key removal, physical rollback gives pages back, aborts undo frees, inline conversion frees the old pages; page capacity: page counts requested for nodes and the free list cover ceil(size/pageSize) of the very object written, buffers are count*pageSize, node.size/sizeLessThan/serialiser agree on the terms, Commit grows the file to the high-water mark and grow truncates to at least the request (tabulated); a root leaf holding a nested-bucket element is never inlineable (inlineable() tabulated); mmapSize / db.mmap / allocate-remap tabulated (the mapping covers every page up to the high-water mark)", "4 C07, 8.2"),
+ "C16": ("fail-fast inside the batch's Update closure with the failing index recorded, queued functions only ever run inside safelyCall's recover barrier, only the failing caller gets trySolo / is removed / never sees the sentinel, buffered result channel and batch.run referenced only through its sync.Once; every batch created is armed with the trigger timer before the mutex is released", "4 C16"),
  "C19": ("each corruption class has a detector wired to the error channel (identified by the data tested, with truth tables for the five map/type detectors and the three key-order comparisons), child subtrees checked against their separator bounds, panic becomes a reported error and the channel is always closed, the walk reaches no mutator, CLI counts every error and a positive count reaches os.Exit(1)", "4 C19"),
  "C06": ("write offsets derive only from ids of pages in tx.pages (filled only by tx.allocate from db.allocate: freelist.Allocate or the high-water mark), free-set entry chain (Free makes pages pending only; mergeSpans/Init only from the release / reload paths) under VTA and CHA, frees and rollbacks under the writer's own txid, free-before-allocate in spill, meta slot, file-writer allow-list, every page handed out is registered with its run length, aborts undo frees", "4 C06, 8.2"),
  "C08": ("every error exit of Commit passes the physical rollback (directly or through commitFreelist's summary), shape of rollback (freelist.Rollback, reload from the committed state chosen by hasSyncedFreelist, close), db.allocate has no error exit after an effect and raises the size-limit error first, no I/O error dropped, no rollback after the meta write was issued (one known finding, demonstrated at runtime in findings/F5)", "4 C08"),
